@@ -25,14 +25,21 @@ import (
 func (p *Prog) normalizeAST() int {
 	n := 0
 	for f := range p.Files {
+		n += p.keyStructLits(f)
 		ast.Inspect(f, func(x ast.Node) bool {
 			switch b := x.(type) {
 			case *ast.BlockStmt:
-				n += p.normalizeList(b.List)
+				var k int
+				b.List, k = p.foldFieldRuns(b.List)
+				n += k + p.normalizeList(b.List)
 			case *ast.CaseClause:
-				n += p.normalizeList(b.Body)
+				var k int
+				b.Body, k = p.foldFieldRuns(b.Body)
+				n += k + p.normalizeList(b.Body)
 			case *ast.CommClause:
-				n += p.normalizeList(b.Body)
+				var k int
+				b.Body, k = p.foldFieldRuns(b.Body)
+				n += k + p.normalizeList(b.Body)
 			}
 			return true
 		})
@@ -296,4 +303,203 @@ func (p *Prog) indexLoopAsRange(fs *ast.ForStmt, before []ast.Stmt) *ast.RangeSt
 		}
 	}
 	return rs
+}
+
+// foldFieldRuns: a local struct declared empty and then filled field by field
+// by the immediately following statements,
+//
+//	var x T            x := T{}          x := &T{}         x := new(T)
+//	x.f = e1 ; x.g = e2 ; ...
+//
+// is the composite literal T{f: e1, g: e2} (evaluation order is the same, nothing can
+// observe x between the statements because none of the e's mentions x).
+func (p *Prog) foldFieldRuns(list []ast.Stmt) ([]ast.Stmt, int) {
+	n := 0
+	for i := 0; i < len(list); i++ {
+		var xObj types.Object
+		var lit *ast.CompositeLit
+		var install func()
+		switch st := list[i].(type) {
+		case *ast.AssignStmt:
+			if st.Tok != token.DEFINE || len(st.Lhs) != 1 || len(st.Rhs) != 1 {
+				continue
+			}
+			id, ok := st.Lhs[0].(*ast.Ident)
+			if !ok || p.Info.Defs[id] == nil {
+				continue
+			}
+			xObj = p.Info.Defs[id]
+			rhs := unparen(st.Rhs[0])
+			if u, ok := rhs.(*ast.UnaryExpr); ok && u.Op == token.AND {
+				rhs = unparen(u.X)
+			}
+			switch r := rhs.(type) {
+			case *ast.CompositeLit:
+				lit = r
+			case *ast.CallExpr:
+				if fid, ok := r.Fun.(*ast.Ident); ok && fid.Name == "new" && len(r.Args) == 1 {
+					if _, isB := p.ObjOf(fid).(*types.Builtin); isB {
+						nl := &ast.CompositeLit{Type: r.Args[0], Lbrace: r.Lparen, Rbrace: r.Rparen}
+						un := &ast.UnaryExpr{OpPos: r.Pos(), Op: token.AND, X: nl}
+						lit = nl
+						stc := st
+						ptrT := p.Info.Types[r]
+						install = func() {
+							p.Info.Types[nl] = types.TypeAndValue{Type: p.TypeOf(r.Args[0])}
+							p.Info.Types[un] = types.TypeAndValue{Type: ptrT.Type}
+							stc.Rhs[0] = un
+						}
+					}
+				}
+			}
+		case *ast.DeclStmt:
+			gd, ok := st.Decl.(*ast.GenDecl)
+			if !ok || gd.Tok != token.VAR || len(gd.Specs) != 1 {
+				continue
+			}
+			vs := gd.Specs[0].(*ast.ValueSpec)
+			if len(vs.Names) != 1 || len(vs.Values) != 0 || vs.Type == nil || p.Info.Defs[vs.Names[0]] == nil {
+				continue
+			}
+			xObj = p.Info.Defs[vs.Names[0]]
+			nl := &ast.CompositeLit{Type: vs.Type, Lbrace: vs.Type.End(), Rbrace: vs.Type.End()}
+			lit = nl
+			idx := i
+			install = func() {
+				p.Info.Types[nl] = types.TypeAndValue{Type: xObj.Type()}
+				list[idx] = &ast.AssignStmt{Lhs: []ast.Expr{vs.Names[0]}, TokPos: vs.Names[0].End(), Tok: token.DEFINE, Rhs: []ast.Expr{nl}}
+			}
+		}
+		if lit == nil || xObj == nil {
+			continue
+		}
+		st, ok := Deref0(xObj.Type()).Underlying().(*types.Struct)
+		if !ok {
+			continue
+		}
+		set := map[string]bool{}
+		keyed := true
+		for _, e := range lit.Elts {
+			kv, ok := e.(*ast.KeyValueExpr)
+			if !ok {
+				keyed = false
+				break
+			}
+			if k, ok := kv.Key.(*ast.Ident); ok {
+				set[k.Name] = true
+			}
+		}
+		if !keyed {
+			continue
+		}
+		var elts []ast.Expr
+		j := i + 1
+		for ; j < len(list); j++ {
+			as, ok := list[j].(*ast.AssignStmt)
+			if !ok || as.Tok != token.ASSIGN || len(as.Lhs) != 1 || len(as.Rhs) != 1 {
+				break
+			}
+			sel, ok := as.Lhs[0].(*ast.SelectorExpr)
+			if !ok {
+				break
+			}
+			xid, ok := sel.X.(*ast.Ident)
+			if !ok || p.ObjOf(xid) != xObj {
+				break
+			}
+			s := p.Info.Selections[sel]
+			if s == nil || s.Kind() != types.FieldVal || len(s.Index()) != 1 || set[sel.Sel.Name] {
+				break
+			}
+			if s.Index()[0] >= st.NumFields() {
+				break
+			}
+			mentions := false
+			ast.Inspect(as.Rhs[0], func(x ast.Node) bool {
+				if id, ok := x.(*ast.Ident); ok && p.ObjOf(id) == xObj {
+					mentions = true
+				}
+				return !mentions
+			})
+			if mentions {
+				break
+			}
+			set[sel.Sel.Name] = true
+			elts = append(elts, &ast.KeyValueExpr{Key: sel.Sel, Colon: as.TokPos, Value: as.Rhs[0]})
+		}
+		if len(elts) == 0 {
+			continue
+		}
+		if install != nil {
+			install()
+		}
+		lit.Elts = append(lit.Elts, elts...)
+		if end := elts[len(elts)-1].End(); end > lit.Rbrace {
+			lit.Rbrace = end
+		}
+		list = append(list[:i+1], list[j:]...)
+		n++
+	}
+	return list, n
+}
+
+// Deref0 strips one pointer level.
+func Deref0(t types.Type) types.Type {
+	if pt, ok := t.Underlying().(*types.Pointer); ok {
+		return pt.Elem()
+	}
+	return t
+}
+
+// keyStructLits: an unkeyed struct literal T{a, b} is T{f0: a, f1: b}.
+func (p *Prog) keyStructLits(f *ast.File) int {
+	n := 0
+	ast.Inspect(f, func(x ast.Node) bool {
+		cl, ok := x.(*ast.CompositeLit)
+		if !ok || len(cl.Elts) == 0 {
+			return true
+		}
+		t := p.TypeOf(cl)
+		if t == nil {
+			return true
+		}
+		st, ok := Deref0(t).Underlying().(*types.Struct)
+		if !ok || len(cl.Elts) != st.NumFields() {
+			return true
+		}
+		if _, keyed := cl.Elts[0].(*ast.KeyValueExpr); keyed {
+			return true
+		}
+		for i, e := range cl.Elts {
+			k := &ast.Ident{NamePos: e.Pos(), Name: st.Field(i).Name()}
+			p.Info.Uses[k] = st.Field(i)
+			cl.Elts[i] = &ast.KeyValueExpr{Key: k, Colon: e.Pos(), Value: e}
+		}
+		n++
+		return true
+	})
+	return n
+}
+
+// LitField: the value given to the named field in a struct literal (after
+// normalisation all struct literals are keyed); nil when the field is left zero.
+func (p *Prog) LitField(cl *ast.CompositeLit, field string) ast.Expr {
+	for _, e := range cl.Elts {
+		if kv, ok := e.(*ast.KeyValueExpr); ok {
+			if k, ok := kv.Key.(*ast.Ident); ok && k.Name == field {
+				return kv.Value
+			}
+		}
+	}
+	return nil
+}
+
+// LitOf: e, possibly through once-defined locals and a leading &, as a composite literal.
+func (p *Prog) LitOf(f *Func, e ast.Expr) *ast.CompositeLit {
+	e = unparen(p.Deref(f, e))
+	if u, ok := e.(*ast.UnaryExpr); ok && u.Op == token.AND {
+		e = unparen(u.X)
+	}
+	cl, _ := e.(*ast.CompositeLit)
+	return cl
 }
